@@ -76,6 +76,21 @@ fn check_all_dc(acc: &mut Acc, v: &Envelope, ids: &[Id], signed: u32, dontcare: 
             }
         }
     }
+    // the explicit-signature entry points: a signature over the SUBJECT digest verifies on this envelope whatever else it carries
+    if dontcare == 0 && class != "transplanted" {
+        let sd = bind::dg(&v.subject());
+        for (k, id) in ids.iter().enumerate().take(2) {
+            if id.scheme.starts_with("mldsa") || id.scheme.starts_with("ssh-ecdsa") { continue }
+            acc.inc("verification_checks");
+            let Ok(Ok(sig)) = catch(|| id.sk.sign_with_options(&sd, id.opts.clone())) else { continue };
+            let other = &ids[(k + 1) % ids.len()];
+            match catch(|| (v.is_verified_signature(&sig, &id.pk), v.verify_signature(&sig, &id.pk).is_ok(), v.is_verified_signature(&sig, &other.pk), v.verify_signature(&sig, &other.pk).is_ok())) {
+                Ok((true, true, false, false)) => {}
+                Ok(got) => acc.viol(format!("C09|is_verified_signature|{class}|expected-(true,true,false,false)-got-{got:?}"), "a signature over the subject digest is not verified on this envelope by the explicit-signature API (or verifies under another key)", cid(), json!({"envelope": hex::encode(v.to_cbor_data()), "key": id.name})),
+                Err(p) => acc.viol(format!("C09|is_verified_signature|panic|{}", p.site), p.msg.clone(), cid(), json!({})),
+            }
+        }
+    }
     // key lists and thresholds
     if dontcare != 0 { return }
     let maxlen = if full_lists { 3 } else { 2 };
